@@ -15,6 +15,37 @@ add("C11", "exploration", "svmc-E1",
     "Trusts the reference codec (cross-checked against the third-party vlq crate in selftest). 13-digit values beyond 63 payload bits are checked for crash-freedom only.",
     "DESIGN.md 4/C11")
 
+add("C01", "exploration", "svmc-E1",
+    "bounded-exhaustive enumeration of abstract maps, real encoder + real decoder, observational comparison",
+    "Every map of five factorised slices (token structure: all multisets of <=4/5 tokens over 42 distinct tokens; strings x roots x contents; names; metadata; index/Hermes documents), each built three ways, is serialised and decoded by the real code and compared observationally; serialise-decode-serialise is compared byte for byte. A coverage statement over the stated space, not a sample.",
+    "Well-formed maps only; cross-slice interactions are not covered; observation function is the harness's (refmodel::obs_real).",
+    "DESIGN.md 4/C01")
+add("C03", "exploration", "svmc-E1",
+    "bounded-exhaustive enumeration of maps; real encoder output read by an independent v3 reader",
+    "Every map of C01's slices plus the products of rewrite / adjust_mappings / flatten is serialised by the real encoder and read by an independent v3 reader (own VLQ, own delta logic, works on serde_json::Value); tokens in raw-index form, sources/root join, names, contents, file, ignoreList, debug_id, key absence and sections are compared. A symmetric encoder/decoder bug is visible because the crate's decoder is not used.",
+    "Trusts the independent reader (self-tested against the independent writer and the repository's fixtures).",
+    "DESIGN.md 4/C03")
+add("C15", "model_checking", "svmc-E2",
+    "explicit-state BFS over the real SourceView's line-index states to a fixpoint, plus unmerged request histories",
+    "For every text up to length 7/9 over {a,\\n,\\r,e-acute,astral} a breadth-first search over the request alphabet runs on the real SourceView until no new real state (progress counter + cached line table, read through the cfg hook) appears, comparing every answer with the split/slice model; this covers request sequences of any length. All (line, col, span) triples incl. values near 2^32 are checked on fresh and indexed views.",
+    "Equal real states are assumed to have equal futures (the hook returns the whole mutable state); an unmerged-history slice does not rely on it. Mid-pair slice starts: crash-freedom only.",
+    "DESIGN.md 4/C15")
+add("C18", "exploration", "svmc-E1",
+    "bounded-exhaustive enumeration of texts and maps on the real detector / data-URL codec",
+    "Every text of <=4/5 lines over an 11-line menu x line endings x final newline is run through both locate entry points against an independent line-anchored scan; every map of C01's regular slices goes through to_data_url -> decode_data_url and through a sourceMappingURL comment -> locate -> get_embedded_sourcemap and must come back observationally equal; every regular/index/Hermes document must be recognised by is_sourcemap(_slice).",
+    "A lone \\r is not treated as a line break for discovery (the property names \\n and \\r\\n).",
+    "DESIGN.md 4/C18")
+add("C19", "exploration", "svmc-E1",
+    "bounded-exhaustive enumeration of path pairs against component-wise resolution",
+    "Every ordered pair of paths with 1..5/6 components over {a,b,c} in six absolute/relative x separator forms; the result resolved component-wise against dir(base) must equal the target, and be '.' iff the target is dir(base).",
+    "Ordinary components only, as the property states.",
+    "DESIGN.md 4/C19")
+add("C20", "fault_enumeration", "svmc-E1",
+    "fault enumeration: every corruption of a menu at every site of every model-generated bundle",
+    "Well-formed bundles written by an independent writer from every model (0..3/4 slots x slot menu x every physical order x startup codes) must be reported exactly; truncation at every length, every 32-bit field x value menu, magic bit flips, zero length with offset, and all short raw byte strings must never panic, never return bytes other than the in-bounds region the table designates, and be refused when a region leaves the buffer.",
+    "64-bit usize; for malformed input refusing more than necessary is allowed.",
+    "DESIGN.md 4/C20")
+
 NOT_YET = {}
 
 def main():
